@@ -590,8 +590,15 @@ fn main() {
         }
     });
     for (w, uri) in VALID_URIS {
-        if AnyUri::parse(w, uri).is_err() {
-            engine::machinery_error(&format!("seed URI {uri} does not parse"));
+        // the seeds are valid URIs written out by hand from the spec's examples: a parser that
+        // rejects one breaks "parsing the text back yields the same value" for a valid URI
+        if let Err(e) = AnyUri::parse(w, uri) {
+            let kind = if w == Which::To { "MatrixToUri" } else { "MatrixUri" };
+            report.violation(
+                &format!("valid-uri-rejected/{kind}"),
+                || format!("valid URI {uri} is rejected: {e:?}"),
+                || text_json(w, uri),
+            );
         }
     }
     report.set("family_b_action_texts", json!(n_actions));
